@@ -97,7 +97,7 @@ impl Prop for C05 {
 		]
 	}
 	fn expected_probes(&self) -> Vec<&'static str> {
-		vec!["approx_block_size_zero", "compressed_block_gt_32k_bzip2", "compressed_block_gt_32k_deflate", "compressed_block_gt_32k_snappy", "compressed_block_gt_32k_xz", "compressed_block_gt_32k_zstandard", "decompressed_size_multiple_of_8192", "push_of_zero_objects", "refill_boundary_inside_block_header_trailer_or_sync"]
+		vec!["approx_block_size_zero", "compressed_block_gt_32k_bzip2", "compressed_block_gt_32k_deflate", "compressed_block_gt_32k_snappy", "compressed_block_gt_32k_xz", "compressed_block_gt_32k_zstandard", "decompressed_size_multiple_of_8192", "push_of_zero_objects", "refill_boundary_inside_block_header_trailer_or_sync", "written_through_write_all"]
 	}
 	fn budget(&self, tier: Tier) -> (u64, u64) {
 		match tier {
@@ -115,7 +115,8 @@ impl Prop for C05 {
 			min_width_one: false,
 			push_ops: true,
 		};
-		let spec = container::gen_filespec(rng, &profile);
+		let mut spec = container::gen_filespec(rng, &profile);
+		container::maybe_via_write_all(rng, &mut spec);
 		Scn {
 			spec,
 			rk_seed: rng.next_u64(),
@@ -184,7 +185,12 @@ impl Prop for C05 {
 			out.count("push_of_zero_objects", 1);
 		}
 		let mut digest = Fnv::new();
-		digest.bytes(&file);
+		if spec.via_write_all {
+			out.count("written_through_write_all", 1);
+			digest.u64(file.len() as u64);
+		} else {
+			digest.bytes(&file);
+		}
 		let budget = container::call_budget_for(model.len(), model.len() + spec.ops.len() + 2);
 		for kind in &kinds {
 			let r = container::read_file(&file, &env, &spec.schema, kind, &[], budget);
